@@ -318,7 +318,13 @@ func histEvents(c *Case) []any {
 			g.Pid, g.Eid, g.Lang = int(key.PlatformID), int(key.EncodingID), int(key.Language)
 			func() {
 				defer func() { recover() }()
-				st, err := cmap.Table{key: k.in}.Get(key)
+				// a decoded subtable belongs to the caller: the first result is scribbled on (entries added,
+				// changed and deleted), the subtable is then asked for again from the same table and bytes
+				tbl := cmap.Table{key: k.in}
+				if first, err := tbl.Get(key); err == nil {
+					scribble(first)
+				}
+				st, err := tbl.Get(key)
 				if err == nil {
 					k.sub = st
 				}
@@ -509,4 +515,33 @@ func selEvents(c *Case) []any {
 		e.DGets, e.DNoLang, e.DBest = observe(d)
 	}()
 	return []any{e}
+}
+
+// scribble changes a decoded subtable the way a caller who owns it may: the map types of the package
+// (Format4, Format12 and whatever else is a map) get every entry changed, one added and one deleted.
+func scribble(st cmap.Subtable) {
+	switch m := st.(type) {
+	case cmap.Format4:
+		first := true
+		for k := range m {
+			if first {
+				delete(m, k)
+				first = false
+				continue
+			}
+			m[k] += 1000
+		}
+		m[0x3039] = 777
+	case cmap.Format12:
+		first := true
+		for k := range m {
+			if first {
+				delete(m, k)
+				first = false
+				continue
+			}
+			m[k] += 1000
+		}
+		m[0x13039] = 777
+	}
 }
